@@ -136,8 +136,8 @@ func Load(repo, tier, tags, goarch string) (*Ctx, error) {
 	all := ssautil.AllFunctions(prog)
 	c.CG = vta.CallGraph(all, cha.CallGraph(prog))
 	for fn := range all {
-		if fn.Pkg == nil && fn.Parent() == nil {
-			// wrappers/thunks without package
+		if fn.Pkg == nil && fn.Parent() == nil && fn.Origin() == nil {
+			// wrappers/thunks without package (instantiations of generic functions have an origin and are kept)
 			continue
 		}
 		pk := fnPkgPath(fn)
@@ -146,7 +146,8 @@ func Load(repo, tier, tags, goarch string) (*Ctx, error) {
 		}
 		if fn.Synthetic != "" && fn.Parent() == nil {
 			// skip wrappers, bound methods, init synthesized — except package init
-			if fn.Name() != "init" {
+			// ... and instantiations of generic functions, which carry the code that runs
+			if fn.Name() != "init" && !strings.HasPrefix(fn.Synthetic, "instance of") {
 				continue
 			}
 		}
